@@ -453,6 +453,10 @@ C13_ClientStatusMapping(o) ==
            ELSE EndD(o).werr = "AuthenticatorError" /\ EndD(o).err = b
 
 -----------------------------------------------------------------------------
+(* C14 (emitted credentials): the JSON of every credential the client returns parses back to an equal value *)
+C14_EmittedReparses(o) == (IsClient(o) /\ EndOk(o)) => EndD(o).client.reparse
+
+-----------------------------------------------------------------------------
 \* the names of the invariants that are false in o
 Violated(o) ==
     IF ~o.b.api \in {"ctap2", "trait", "client", "u2f"} THEN {}
@@ -487,6 +491,7 @@ Violated(o) ==
     \cup (IF ~C09_Results(o) THEN {"C09.Results"} ELSE {})
     \cup (IF ~C06_NoSecretInOutput(o) THEN {"C06.NoSecretInOutput"} ELSE {})
     \cup (IF ~C06_PublicParametersOnly(o) THEN {"C06.PublicParametersOnly"} ELSE {})
+    \cup (IF ~C14_EmittedReparses(o) THEN {"C14.EmittedReparses"} ELSE {})
     \cup (IF ~C13_ClientStatusMapping(o) THEN {"C13.ClientStatusMapping"} ELSE {})
     \cup (IF ~C17_Registration(o) THEN {"C17.Registration"} ELSE {})
     \cup (IF ~C17_Authentication(o) THEN {"C17.Authentication"} ELSE {})
